@@ -11,6 +11,7 @@ import (
 	"strconv"
 	"strings"
 	"sync"
+	"sync/atomic"
 	"time"
 
 	at "github.com/DanielSvub/anytype"
@@ -378,6 +379,8 @@ func runC15(c *Ctx) {
 		c.nestedAsync()
 		c.crossAsync()
 	}
+	c.M.Case("late-starter")
+	c.lateStarter()
 	// independent containers used concurrently (each goroutine its own): results as in a sequential run
 	c.M.Case("concurrent-independent")
 	for rep := 0; rep < c.N(6, 40); rep++ {
@@ -559,4 +562,56 @@ func (c *Ctx) concurrentIndependent(k int) {
 		}
 	}
 	c.St.Eval("concurrent-independent", true)
+}
+
+// lateStarter: a schedule in which the callbacks of all elements but the last wait until the callback of the last
+// element has started.  With one goroutine per element this schedule always completes; an implementation that
+// runs the callbacks in a bounded pool, in batches or one after another admits no such execution and never returns.
+func (c *Ctx) lateStarter() {
+	for _, n := range []int{2, 3, 17, 257, 300, 1025, c.N(1500, 5000)} {
+		gs := make([]any, n)
+		kv := make([]any, 0, 2*n)
+		for i := range gs {
+			gs[i] = i
+			kv = append(kv, "k"+strconv.Itoa(i), i)
+		}
+		l := at.NewListFrom(gs)
+		o := at.NewObject(kv...)
+		for _, kind := range []string{"list", "object"} {
+			started := make(chan struct{})
+			var once sync.Once
+			var calls int64
+			release := func() { once.Do(func() { close(started) }) }
+			ok := within(10*time.Second, func() {
+				if kind == "list" {
+					l.ForEachAsync(func(i int, v any) {
+						atomic.AddInt64(&calls, 1)
+						if i == n-1 {
+							release()
+						} else {
+							<-started
+						}
+					})
+				} else {
+					o.ForEachAsync(func(k string, v any) {
+						atomic.AddInt64(&calls, 1)
+						if k == "k"+strconv.Itoa(n-1) {
+							release()
+						} else {
+							<-started
+						}
+					})
+				}
+			})
+			got := atomic.LoadInt64(&calls)
+			release() // let blocked callbacks go, whatever happened
+			if !ok {
+				c.M.Alarm("C15", fmt.Sprintf("%s ForEachAsync on %d elements under the schedule 'every callback waits until the callback of the last element has started' did not return within 10 s (%d callbacks had started): the callbacks are not independent goroutines", kind, n, got))
+			} else if got != int64(n) {
+				c.M.Alarm("C15", fmt.Sprintf("%s ForEachAsync on %d elements called the function %d times", kind, n, got))
+			}
+		}
+		c.St.Eval(fmt.Sprintf("late-starter:%d", n), n > 2)
+		c.St.Count("async_late_starter")
+	}
 }
